@@ -292,3 +292,63 @@ pub struct RunSpec {
     /// Some(..) => replay exactly these decisions instead of drawing them
     pub schedule: Option<ScheduleRec>,
 }
+
+// ---------------------------------------------------------------------------
+// C17: operation histories on the public collections
+
+#[derive(Serialize, Deserialize, Clone, Copy, Debug, PartialEq, Eq, Hash)]
+pub enum CollKind {
+    Types,
+    Funcs,
+    Globals,
+    Memories,
+    Tables,
+    Data,
+    Elements,
+    Exports,
+    Imports,
+    Locals,
+    Customs,
+}
+
+pub const ALL_COLLS: &[CollKind] = &[
+    CollKind::Types,
+    CollKind::Funcs,
+    CollKind::Globals,
+    CollKind::Memories,
+    CollKind::Tables,
+    CollKind::Data,
+    CollKind::Elements,
+    CollKind::Exports,
+    CollKind::Imports,
+    CollKind::Locals,
+    CollKind::Customs,
+];
+
+#[derive(Serialize, Deserialize, Clone, Debug, PartialEq, Eq, Hash)]
+pub enum COp {
+    /// add a new item; `arg` selects a variant (signature from the pool, import vs local, ...)
+    Add { m: u8, coll: CollKind, arg: u32 },
+    /// delete the `nth` id EVER issued by that collection (a dead one is the injected fault)
+    Delete { m: u8, coll: CollKind, nth: u32 },
+    /// look up the `nth` id ever issued (dead ones must be refused)
+    Get { m: u8, coll: CollKind, nth: u32 },
+    /// finder (`find`, `by_name`, `get_func`, `remove`-by-name ...) with a key derived from `arg`
+    Find { m: u8, coll: CollKind, arg: u32 },
+    /// compare iteration with the model
+    Iter { m: u8, coll: CollKind },
+    /// `FunctionBuilder::new`: adds (or finds) a function type and an entry type
+    BuilderNew { m: u8, sig: u32 },
+    /// ambient: move the process-global arena counter
+    Burn { n: u32 },
+}
+
+#[derive(Serialize, Deserialize, Clone, Debug, Default)]
+pub struct CollReport {
+    pub steps_done: u32,
+    /// (step, oracle id, detail)
+    pub failure: Option<(u32, String, String)>,
+    pub counters: Vec<(String, u64)>,
+    /// hash of the model after every step
+    pub state_hashes: Vec<u64>,
+}
